@@ -225,7 +225,7 @@ def run_world(facts, rep, tier, ctx, w, rep0):
                             if cb is not None and ls.acquires(cb):
                                 rep.fail("R16.2", b.id, "closure acquiring the lock under live guard",
                                          "closure %s runs inside the critical section and acquires the lock" % cb.id, t.line)
-    rep.floor("lock acquisitions in impls/memory.rs (%s)" % w.tag, n_acq, 10 if asyncw else 13)
+    rep.floor("lock acquisitions in impls/memory.rs (%s)" % w.tag, n_acq, 8 if asyncw else 10)
 
     # R16.1 one critical section per operation
     for name, b0 in sorted(ops.items()):
